@@ -15,8 +15,8 @@ BOUNDS = {
     "thorough": {"body": "0-3 chunks of 0-3 bytes", "header_value": "<= 5 characters"},
 }
 STUBS = ["the status code is injected as Response._status_code (status text normalisation is a table lookup, checked separately for ints)"]
-ASSUMPTIONS = ["no Location header (IRI handling is stdlib URL code)", "str body items hold code points <= U+07FF"]
-OUTSIDE = ["str body items beyond U+07FF", "real file wrappers (direct passthrough is exercised with a closable iterable)", "Location autocorrection", "generator bodies (not a sequence: no computed length)"]
+ASSUMPTIONS = ["Location texts are a fixed URL skeleton plus solver characters without URL delimiters", "str body items hold code points <= U+07FF"]
+OUTSIDE = ["str body items beyond U+07FF", "real file wrappers (direct passthrough is exercised with a closable iterable)", "Location values with solver-chosen delimiters / IDN hosts", "generator bodies (not a sequence: no computed length)"]
 
 
 def utf8_len(s):
@@ -142,6 +142,30 @@ def body_passthrough(I, X, method="GET", lens=(2,)):
         ok = peq(out, pconcat(b"", *chunks))
     ok = pand(ok, len(closed) == 1, pb.closed == 1)
     return ok, {"out": out, "closed": len(closed), "body_closed": pb.closed}
+
+
+def body_location(I, X, n=1, form="absolute", autocorrect=False):
+    """Location is an ASCII URI: whatever IRI text the application stored, and whatever
+    (non-ASCII) URL the request had when autocorrect joins them, the header handed to the
+    server holds only printable ASCII"""
+    from werkzeug.wrappers import Response
+
+    t = X.str("loc", n, minlen=n, maxcp=0x7FF)
+    X.assume(pall_in(t, [(0x20, 0x7E), (0xA0, 0x7FF)]))
+    X.assume(pnone_in(t, [0x23, 0x3F, 0x5B, 0x5D, 0x40, 0x3A, 0x2F]))   # the solver part holds no URL delimiters
+    loc = pconcat({"absolute": "http://h/p", "relative": "x", "query": "?q="}[form], t)
+    resp = Response(b"", 302)
+    resp.autocorrect_location_header = autocorrect
+    I.call(resp.headers.__setitem__, ("Location", loc))
+    # PATH_INFO / SCRIPT_NAME as a WSGI server passes non-ASCII: UTF-8 bytes tunnelled through latin-1
+    environ = {"REQUEST_METHOD": "GET", "wsgi.url_scheme": "http", "SERVER_NAME": "s", "SERVER_PORT": "80",
+               "SCRIPT_NAME": "/r\xc3\xa9", "PATH_INFO": "/caf\xc3\xa9/i", "QUERY_STRING": "a=b"}
+    headers = I.call(resp.get_wsgi_headers, (environ,))
+    out = I.call(headers.get, ("Location",))
+    ok = out is not None and pall_in(out, [(0x21, 0x7E)])
+    if autocorrect or form == "absolute":
+        ok = pand(ok, pcontains(out, "://"))
+    return ok, {"location": out}
 
 
 class ClosableBody:
@@ -289,6 +313,12 @@ def obligations(tier, seed):
                 out.append({"name": f"wsgi_response[{method},lens={lens},kinds={kinds},cl={preset}]", "body": "body_wsgi_response",
                             "params": {"method": method, "lens": list(lens), "preset": preset, "kinds": kinds},
                             "opts": {"budget_s": 600, "ctx": {"bv_ints": True, "max_cp": 0x7FF}}})
+    for form in ("absolute", "relative", "query"):
+        for autocorrect in (False, True):
+            for n in ((0, 1, 2) if quick else (0, 1, 2, 3)):
+                out.append({"name": f"location[{form},autocorrect={autocorrect},n={n}]", "body": "body_location",
+                            "params": {"n": n, "form": form, "autocorrect": autocorrect},
+                            "opts": {"budget_s": 900, "ctx": {"max_cp": 0x7FF}}})
     for via in ("make_sequence", "get_data", "calculate_content_length", "none"):
         for method in ("GET", "HEAD"):
             for lens in [(), (2,), (1, 0)]:
@@ -305,3 +335,9 @@ def obligations(tier, seed):
                         "opts": {"budget_s": 600, "ctx": {"max_cp": 0xFF}}, "witness": n == 2 and m == "add"})
     out.append({"name": "status[int]", "body": "body_status", "params": {}, "opts": {"budget_s": 600, "ctx": {"bv_ints": True}}, "witness": True})
     return out
+
+
+def make_stubs():
+    from harness.c07 import make_stubs as m
+
+    return m()
